@@ -1,6 +1,6 @@
 """C04 - quoting or list-indenting any document wraps its parse unchanged (E1, line alphabet)."""
 import itertools
-from mc import core, spaces, trees
+from mc import core, spaces, trees, leafspell, inlinespell
 
 ID = 'C04'
 TECHNIQUE = ('exhaustive enumeration of all texts of <= 3/4 lines over a 30-line alphabet, each embedded under "> ", under '
@@ -29,6 +29,7 @@ def jobs(tier):
     for n in range(1, nt + 1):
         ns = 1 if n < 3 else (16 if n == 3 else 128)
         extra += [('trees', n, 2 if tier == 'quick' else 3, tier, sh, ns) for sh in range(ns)]
+    extra += [j + (tier,) for j in leafspell.jobs() + inlinespell.jobs()]
     if tier == 'quick':
         return [(i, None, k, tier) for i in range(len(L))] + extra
     return [(i, j, k, tier) for i in range(len(L)) for j in range(len(L))] + [(i, None, 1, tier) for i in range(len(L))] + extra
@@ -202,6 +203,22 @@ def run_job(job):
                 continue
             run_text(r, md[:-1].split('\n'), job[3])
         r.sample(dict(space='spec corpus', examples=[job[1] + 1, job[2]]), 1)
+        return r
+    if job[0] in ('leafspell', 'inlinespell'):
+        # every spelling of every leaf block / inline construct as the document T that is wrapped
+        mod = leafspell if job[0] == 'leafspell' else inlinespell
+        ctxs = ['alone', 'then-paragraph', 'after-paragraph'] if job[0] == 'leafspell' else ['paragraph', 'paragraph-mid']
+        for case in mod.cases_of_job(job[:3]):
+            for ctx in ctxs:
+                x = mod.in_context(case, ctx)
+                if x is None:
+                    continue
+                md = x[0]
+                if '\t' in md or not md.endswith('\n') or md.endswith('\n\n') or md.strip() == '':
+                    r.skip('text with a tab / ending in a blank line / empty')
+                    continue
+                run_text(r, md[:-1].split('\n'), job[3])
+        r.sample(dict(space=job[0], family=job[1]), 1)
         return r
     if job[0] == 'trees':
         _, n, depth, tier, sh, ns = job
